@@ -762,8 +762,8 @@ func TestRecord(t *testing.T) {
 						b = denoms[rng.Intn(3)]
 					}
 				}
-				if sub == "cl" && rng.Intn(8) == 0 {
-					a, b = third, "nonquote" // refused: not an authorized quote denom
+				if si > 0 && sub != "cl" && rng.Intn(8) == 0 {
+					a = "nofunds" // refused: the creator holds none of it
 				}
 				oc, pid, gs := w.createPool(sub, a, b)
 				kind := "cfmm"
